@@ -269,7 +269,7 @@ fn keys_for_slot(cap: usize, slot: usize, n: usize, start: u64) -> Vec<u64> {
     let mut out = Vec::new();
     let mut k = start;
     let mut guard = 0;
-    while out.len() < n && guard < 200_000 {
+    while out.len() < n && guard < (if cfg!(miri) { 4_000 } else { 200_000 }) {
         let h = cao_hash_u64(k);
         if h != 0 && home_slot(h, cap) == slot {
             out.push(k);
@@ -364,7 +364,8 @@ impl Engine for HashMapEngine {
         let init_cap = *rng.pick(&[0usize, 1, 1, 2, 3, 4, 7, 8, 8, 8, 16, 33]);
         let kind = rng.weighted(&[4, 4, 2]);
         let universe = self.gen_universe(rng, kind, init_cap);
-        let max_ops = if tier == Tier::Quick { 120 } else { 200 };
+        // (the Miri interpreter is about four orders of magnitude slower: short histories there)
+        let max_ops = if cfg!(miri) { 36 } else if tier == Tier::Quick { 120 } else { 200 };
         let n_ops = rng.range(5, max_ops) as usize;
         // phase weights: grow-heavy, churn, shrink-heavy
         let profile = rng.below(3);
@@ -426,7 +427,7 @@ impl Engine for HashMapEngine {
                 return v;
             }
             obs.inc("fail_sweeps");
-            for i in 0..n_alloc {
+            for i in 0..(if cfg!(miri) { n_alloc.min(6) } else { n_alloc }) {
                 let a = mk();
                 let mut o2 = Obs::default();
                 let (v, _) = run_history(case, a.clone(), Some(&a), Some(i), &mut o2);
